@@ -24,6 +24,11 @@ RULE = ("sweep: one case per (configuration, row) for table rows, per (configura
         "reading of the source text with cells addressed by the documented column names; every case is non-trivial "
         "and distinct by that key.")
 ASSUMPTIONS = [
+    "energy scan: every energy-dependent entry is also queried through one ndarray object refilled in place with other "
+    "tabulated energies (4 fills x 2 calls of scattering_by_wavelength, then sld() and scattering()): each answer is "
+    "judged by the table for the values the array holds at that moment (abs 1e-12; sigma_s = 4 pi |b|^2/100 rel 1e-9), the "
+    "argument must be unchanged, returned arrays belong to the caller (they are overwritten and the next answer must "
+    "still be right), and sld()/scattering() through the reused array must equal the call with a fresh copy (rel 1e-12)",
     "number cells: [<]value[(unc)][E exp][*]; an exponent written after the uncertainty applies to value and "
     "uncertainty alike, 2.4(8)E-5 = (2.4 +- 0.8)e-5, as in <6.0E-6; a cell in no documented notation is reported as "
     "c07:table:unreadable-cell with what the library serves (only that row is skipped), a row that cannot be laid out "
@@ -356,7 +361,81 @@ def check_node(ctx, case):
                     "%s at %r eV (node %d of %d): %r, table says %r" % (label, e, j, len(nodes), g, want), case)
 
 
-CHECKS = {"row": check_row, "absent": check_absent, "node": check_node, "added": check_added}
+def check_scan(ctx, case):
+    """case = {kind:'scan', config, sym, a}: an energy scan through ONE preallocated array that is refilled in place
+    with other tabulated energies.  Every answer is judged by the table for the values the buffer holds at that
+    moment; the argument must come back unchanged; a returned array must be fresh (mutating it must not change a
+    later answer); sld()/scattering() through the reused buffer must equal the same call with a fresh copy."""
+    import numpy as np
+    from periodictable import nsf
+    O = oracle()
+    table = env(case["config"])
+    sym, a = case["sym"], case["a"]
+    nodes = O["energy"][(sym, a or None)]
+    el = getattr(table, sym)
+    atom = el[a] if a else el
+    label = "%s-%d" % (sym, a) if a else sym
+    n = atom.neutron
+    if n.nsf_table is None:
+        raise V("energy:no-table", "%s has an energy-dependent table but neutron.nsf_table is None" % label, case)
+    N = len(nodes)
+    width = 3
+    # four fills: disjoint-ish node triples spread over the table, the last one repeats the first
+    fills = [[(f * 7 + j * (N // width)) % N for j in range(width)] for f in range(3)]
+    fills.append(list(fills[0]))
+    buf = np.empty(width)
+
+    def flat(x):
+        return [complex(v) for v in np.ravel(x)]
+
+    def close_all(p, q, rel):
+        p, q = flat(p), flat(q)
+        return len(p) == len(q) and all(u == v or abs(u - v) <= rel * max(abs(u), abs(v)) for u, v in zip(p, q))
+
+    for fno, ks in enumerate(fills):
+        for j, k in enumerate(ks):
+            buf[j] = float(nsf.neutron_wavelength(nodes[k][0] * 1000))        # refill the same object in place
+        held = buf.copy()
+        want = [complex(nodes[k][1], nodes[k][2]) for k in ks]
+        where = "%s, fill %d of one reused array (nodes %r)" % (label, fno + 1, ks)
+        for rep in (1, 2):
+            out = n.scattering_by_wavelength(buf)
+            if not np.array_equal(buf, held):
+                raise V("energy:scan:argument-modified", "%s: scattering_by_wavelength changed its argument %r -> %r"
+                        % (where, held.tolist(), buf.tolist()), case)
+            got = flat(out[0])
+            if len(got) != width or not all(abs(g - w) <= 1e-12 for g, w in zip(got, want)):
+                b = "energy:scan:stale-answer" if rep == 1 else "energy:scan:returned-array-not-fresh"
+                raise V(b, "%s, call %d: b_c = %r, table says %r for the energies the array holds now"
+                        % (where, rep, got, want), case)
+            sig = flat(out[1])
+            wsig = [4 * math.pi * abs(w) ** 2 / 100 for w in want]
+            if len(sig) != width or not all(abs(g.real - w) <= 1e-9 * max(1.0, w) for g, w in zip(sig, wsig)):
+                raise V("energy:scan:sigma_s", "%s, call %d: sigma_s = %r, 4 pi |b|^2/100 = %r" % (where, rep, sig, wsig), case)
+            # the caller owns what was returned: scribbling on it must not change a later answer
+            for arr in out:
+                if isinstance(arr, np.ndarray) and arr.flags.writeable:
+                    arr[...] = -12345.0
+        if n.has_sld():
+            for name in ("sld", "scattering"):
+                meth = getattr(n, name)
+                r_buf = meth(wavelength=buf)
+                if not np.array_equal(buf, held):
+                    raise V("energy:scan:argument-modified", "%s: %s() changed its argument" % (where, name), case)
+                r_new = meth(wavelength=held.copy())
+                parts_b = list(r_buf[0]) + list(r_buf[1]) + [r_buf[2]] if name == "scattering" else list(r_buf)
+                parts_n = list(r_new[0]) + list(r_new[1]) + [r_new[2]] if name == "scattering" else list(r_new)
+                for pb, pn in zip(parts_b, parts_n):
+                    if not close_all(pb, pn, 1e-12):
+                        raise V("energy:scan:%s-depends-on-array-identity" % name,
+                                "%s: neutron.%s(wavelength=<reused array>) = %r but with a fresh copy of the same values %r"
+                                % (where, name, np.ravel(pb).tolist(), np.ravel(pn).tolist()), case)
+                for pb in parts_b:
+                    if isinstance(pb, np.ndarray) and pb.flags.writeable:
+                        pb[...] = -12345.0
+
+
+CHECKS = {"row": check_row, "absent": check_absent, "node": check_node, "added": check_added, "scan": check_scan}
 
 
 def sweep(ctx, config):
@@ -401,6 +480,9 @@ def sweep(ctx, config):
         for k in range(len(nodes)):
             run({"kind": "node", "sym": sym, "a": a, "k": k, "vector": False}, ("node", sym, a, k, "scalar"),
                 {"energy-table": "%s-%d" % (sym, a) if a else sym, "eV": nodes[k][0]}, ["energy-node:scalar"])
+        run({"kind": "scan", "sym": sym, "a": a}, ("scan", sym, a),
+            {"energy-table": "%s-%d" % (sym, a) if a else sym, "scan": "one array refilled in place, 4 fills x 2 calls"},
+            ["energy-table:scan-reused-array"])
         run({"kind": "node", "sym": sym, "a": a, "k": 0, "vector": True}, ("node", sym, a, "vector"),
             {"energy-table": "%s-%d" % (sym, a) if a else sym, "nodes": len(nodes)}, ["energy-table:vector"])
 
